@@ -682,12 +682,41 @@ Record vdump := mk_vd {
   vd_exc : list (bytes * option bytes)
 }.
 
+Definition no_byte_bs (s : bytes) : bool := forallb (fun c => negb (c =? cBS)) s.
+
 Definition key_bytes (k : key_kind) : bytes :=
   match k with KNone => [] | KStr s => s | KRx r => cSLASH :: r ++ [cSLASH] end.
 
+(* lowerRegexSource (rule.go): the literal text of a regex key of a case-insensitive collection is
+   lower-cased, escape sequences are copied as written: backslash + one byte, the braces of
+   \p{..} \P{..} \x{..}, the one-letter class of \pL / \PL.  [brace] = inside such braces. *)
+Definition c_is_pPx (d : N) : bool := (d =? 112) || (d =? 80) || (d =? 120).
+Definition c_is_pP (d : N) : bool := (d =? 112) || (d =? 80).
+Fixpoint lrs_loop (s : bytes) (brace : bool) : bytes :=
+  match s with
+  | [] => []
+  | c :: r =>
+    if brace then c :: lrs_loop r (negb (c =? 125))
+    else if negb (c =? cBS) then ascii_lower c :: lrs_loop r false
+    else match r with
+         | [] => [c]
+         | d :: r2 =>
+           cBS :: d ::
+           match r2 with
+           | [] => []
+           | e :: r3 =>
+             if c_is_pPx d && (e =? 123) then lrs_loop r2 true
+             else if c_is_pP d then e :: lrs_loop r3 false
+             else lrs_loop r2 false
+           end
+         end
+  end.
+Definition lower_regex_source (rx : bytes) : bytes :=
+  if no_byte_bs rx then p_lower rx else lrs_loop rx false.
+
 Definition rx_of (name : bytes) (k : key_kind) : option bytes :=
   match k with
-  | KRx r => Some (if case_sensitive_variable name then r else p_lower r)
+  | KRx r => Some (if case_sensitive_variable name then r else lower_regex_source r)
   | _ => None
   end.
 
